@@ -175,12 +175,31 @@ def rule_a(ctx, out):
     if not rets:
         raise AnalysisError(f"{COMPARE} has no return statement")
     params = f.params
+    vf = ctx.callee_in(f, "verification.sfs_verify")
+    cfg = ctx.cfg(f)
+    tests = [t for t in cfg.nodes if t.kind == "test"]
+
+    def path_facts(ret):
+        """(expression, truth) for every branch condition that holds on all paths to the return (guard clauses)"""
+        node = cfg.stmt_node(ret)
+        facts = []
+        for t in tests:
+            for lab, truth in (("T", True), ("F", False)):
+                if node is not None and cfg.edge_dominated_by_branch(node, t, lab):
+                    e = t.ast
+                    while isinstance(e, ast.UnaryOp) and isinstance(e.op, ast.Not):
+                        e, truth = e.operand, not truth
+                    facts.append((e, truth))
+        return facts
     accepting = 0
     for r in rets:
         v = r.value
         first = v.elts[0] if isinstance(v, ast.Tuple) and v.elts else v
         if isinstance(first, ast.Constant) and first.value is False:
             continue    # a rejecting return (e.g. in an exception handler) needs no justification
+        facts = path_facts(r)
+        if any(not truth and norm(e) == norm(first) for e, truth in facts):
+            continue    # `if not X: return X, reason` : the value is known to be falsy here
         accepting += 1
         conj = []
 
@@ -191,10 +210,13 @@ def rule_a(ctx, out):
             else:
                 conj.append(e)
         flat(origin(first) if not isinstance(origin(first), tuple) else first)
+        for e, truth in facts:
+            if truth:
+                flat(origin(e) if not isinstance(origin(e), tuple) else e)
         has_verify = has_init = has_final = False
         for c in conj:
             o = origin(c)
-            if isinstance(o, tuple) and isinstance(o[1], ast.Call) and call_name(o[1]) == "verify_block_from_list_of_sfs" and o[2] == 0:
+            if isinstance(o, tuple) and isinstance(o[1], ast.Call) and call_name(o[1]) == vf.name and o[2] == 0:
                 has_verify = _verify_args_ok(o[1], origin, params)
             if isinstance(o, ast.Compare) and len(o.ops) == 1 and isinstance(o.ops[0], ast.Eq):
                 l, rr = origin(o.left), origin(o.comparators[0])
@@ -218,7 +240,6 @@ def rule_a(ctx, out):
     if not accepting:
         raise AnalysisError(f"{COMPARE} has no accepting return")
     # --- verify_block_from_list_of_sfs covers every key ---------------------------
-    vf = ctx.func("verification.sfs_verify.verify_block_from_list_of_sfs")
     _verify_block_rule(ctx, vf, out)
 
 
